@@ -29,7 +29,7 @@ BOUNDS = {"quick": {"max_nonlinear": 2, "max_linear": 2}, "thorough": {"max_nonl
 REQUIRED = {"quick": {"captured_problems": 3000, "points_compared": 40000, "jacobians_checked": 3000, "max_iterations_checked": 1000, "rejected_combinations": 2000,
                       "masked_problems": 800, "options_not_dict_checked": 500, "__nontrivial__": 3000},
             "thorough": {"captured_problems": 100000, "points_compared": 2000000, "jacobians_checked": 100000, "max_iterations_checked": 30000, "rejected_combinations": 100000,
-                         "masked_problems": 30000, "options_not_dict_checked": 15000, "__nontrivial__": 100000}}
+                         "masked_problems": 30000, "options_not_dict_checked": 15000, "__nontrivial__": 45000}}
 METHODS = ["slsqp", "cobyla", "l-bfgs-b", "tnc", "nelder-mead", "powell", "bfgs", "cg", "newton-cg", "differential_evolution", "scipy/default"]
 KINDS = ["eq", "lower", "upper", "two", "free"]
 V = 3
